@@ -140,6 +140,22 @@ pub fn named_default_symptom(font: &BitFont, file: &[u8], back: &BitFont) -> boo
     font.name == DEFAULT_FONT_NAME && file.len() > 10 && file[10] & 2 == 0 && same_font(&BitFont::default(), back).is_ok()
 }
 
+/// the recorded findings `adf_font_height_of_slot0` / `idf_font_height_of_slot0` and nothing else: the cells are all on ONE
+/// page k != 0, slot 0 and slot k both hold a font, and exactly one of the two is 16 rows high — `Artworx::to_bytes` /
+/// `IceDraw::to_bytes` test `get_font_dimensions()` (= slot 0) but embed the font of page k
+pub fn slot0_height_symptom(fmt: &str, fonts: &[(usize, BitFont)], used: &[usize]) -> Option<String> {
+    if fmt != "adf" && fmt != "idf" || used.len() != 1 || used[0] == 0 {
+        return None;
+    }
+    let h0 = fonts.iter().find(|(s, _)| *s == 0)?.1.size.height;
+    let hk = fonts.iter().find(|(s, _)| *s == used[0])?.1.size.height;
+    if (h0 == 16) != (hk == 16) {
+        Some(format!("{fmt}_font_height_of_slot0"))
+    } else {
+        None
+    }
+}
+
 struct Cell {
     ch: u32,
     fg: u32,
@@ -219,6 +235,9 @@ pub fn file_case(run: &mut Run, input: &str, f: &[&str]) {
     }
     // an 8th field `x`: the picture is OUTSIDE the format's domain, the writer has to refuse it (an `Err`, no panic, no file)
     let expect_refusal = f.len() == 8 && f[7] == "x";
+    // an 8th field `p`: the buffer has NO font in slot 0 — not a state of the engine's buffers (`Buffer::new` and every loader
+    // fill slot 0; `get_font_dimensions` indexes it everywhere): a writer that panics / refuses is compared with the model only
+    let no_slot0 = f.len() == 8 && f[7] == "p";
     let fmt = f[0];
     let opts: u8 = f[1].parse().unwrap_or(0);
     let ice: u8 = f[2].parse().unwrap_or(1);
@@ -246,6 +265,18 @@ pub fn file_case(run: &mut Run, input: &str, f: &[&str]) {
     let mut used: Vec<usize> = cells.iter().map(|c| c.page).collect();
     used.sort_unstable();
     used.dedup();
+    // "which font goes where": the page the cells are on / the slot the font sits in / what slot 0 holds next to it
+    if used.iter().any(|p| *p != 0) {
+        let s0 = match fonts.iter().find(|(s, _)| *s == 0) {
+            None => "empty",
+            Some((_, b)) if b.is_default() => "built-in",
+            Some(_) => "other font",
+        };
+        run.count(&format!("box .{fmt} cells on page(s) != 0 ({} page(s)), slot 0 = {s0}{}", used.len(), if used.contains(&0) { " (in use)" } else { "" }));
+    }
+    let slot0_key = slot0_height_symptom(fmt, &fonts, &used);
+    let key_rt = slot0_key.clone().unwrap_or_else(|| format!("{fmt}_font_rt"));
+    let key_block = slot0_key.clone().unwrap_or_else(|| format!("{fmt}_font_block"));
     // ---- the real crate
     let mut buf = Buffer::new((w as i32, h as i32));
     buf.is_terminal_buffer = false;
@@ -300,26 +331,41 @@ pub fn file_case(run: &mut Run, input: &str, f: &[&str]) {
         Ok(Ok(b)) => b,
         Ok(Err(e)) => {
             run.case(&op, "save=err");
-            if !expect_refusal {
-                run.oracle_fail(&format!("{fmt}_font_rt"), input, &format!("the writer refused a picture of the format's domain: {e}"));
+            if no_slot0 {
+                run.count("box: no font in slot 0, writer refused (compared with the model only)");
+            } else if !expect_refusal {
+                run.oracle_fail(&key_rt, input, &format!("the writer refused a picture of the format's domain: {e}"));
             }
             return;
         }
         Err(l) => {
             run.case(&op, "save=panic");
-            run.oracle_fail(&format!("{fmt}_font_rt"), input, &format!("panic at {} while saving", panic_site(&l)));
+            if no_slot0 {
+                run.count("box: no font in slot 0, writer panicked (compared with the model only)");
+            } else {
+                run.oracle_fail(&key_rt, input, &format!("panic at {} while saving", panic_site(&l)));
+            }
             return;
         }
     };
     if expect_refusal {
-        run.oracle_fail(&format!("{fmt}_font_rt"), input, "the writer accepted fonts the format cannot hold (a file was written)");
+        run.oracle_fail(&key_rt, input, "the writer accepted fonts the format cannot hold (a file was written)");
     }
     let font_of = |slot: usize| -> BitFont { fonts.iter().find(|(s, _)| *s == slot).map(|(_, b)| b.clone()).unwrap_or_default() };
+    // ADF / IDF: the format's font block has 4096 bytes; a writer that embedded something else wrote no file of the format
+    if fmt == "adf" || fmt == "idf" {
+        let n = font_of(used.first().copied().unwrap_or(0)).convert_to_u8_data().len();
+        if n != 4096 {
+            run.case(&op, &format!("save={}:{} blocks=?", bytes.len(), fnv(bytes.iter().map(|b| *b as u64))));
+            run.oracle_fail(&key_block, input, &format!("the writer embedded a font block of {n} bytes; the format's font block has 4096 (8x16 only)"));
+            return;
+        }
+    }
     let blocks = match file_blocks_by_spec(fmt, &bytes, &used, opts & 1 != 0) {
         Ok(b) => b,
         Err(e) => {
             run.case(&op, &format!("save={}:{} blocks=?", bytes.len(), fnv(bytes.iter().map(|b| *b as u64))));
-            run.oracle_fail(&format!("{fmt}_font_block"), input, &e);
+            run.oracle_fail(&key_block, input, &e);
             return;
         }
     };
@@ -330,7 +376,7 @@ pub fn file_case(run: &mut Run, input: &str, f: &[&str]) {
         if !ok {
             let found = (0..bytes.len().saturating_sub(want.len()) + 1).find(|o| want.len() <= bytes.len() && bytes[*o..o + want.len()] == want[..]);
             run.oracle_fail(
-                &format!("{fmt}_font_block"),
+                &key_block,
                 input,
                 &format!("the glyph bytes of font slot {slot} are not at offset {off} (+{len}) where the format puts the font block; they are {}", match found {
                     Some(o) => format!("at offset {o}"),
@@ -348,12 +394,12 @@ pub fn file_case(run: &mut Run, input: &str, f: &[&str]) {
         Ok(Ok(b)) => b,
         Ok(Err(e)) => {
             run.case(&op, &format!("{head} load=rej"));
-            run.oracle_fail(&format!("{fmt}_font_rt"), input, &format!("the written file is rejected: {e}"));
+            run.oracle_fail(&key_rt, input, &format!("the written file is rejected: {e}"));
             return;
         }
         Err(l) => {
             run.case(&op, &format!("{head} load=rej"));
-            run.oracle_fail(&format!("{fmt}_font_rt"), input, &format!("panic at {} while loading the written file", panic_site(&l)));
+            run.oracle_fail(&key_rt, input, &format!("panic at {} while loading the written file", panic_site(&l)));
             return;
         }
     };
@@ -369,11 +415,11 @@ pub fn file_case(run: &mut Run, input: &str, f: &[&str]) {
         match back.get_font(slot) {
             Some(b) => {
                 if let Err(e) = same_font(&orig, b) {
-                    let key = if fmt == "xb" && named_default_symptom(&orig, &bytes, b) { "xbin_font_named_default".to_string() } else { format!("{fmt}_font_rt") };
+                    let key = if fmt == "xb" && named_default_symptom(&orig, &bytes, b) { "xbin_font_named_default".to_string() } else { key_rt.clone() };
                     run.oracle_fail(&key, input, &format!("font of page {page} embedded in .{fmt} and read back as font {slot}: {e}"));
                 }
             }
-            None => run.oracle_fail(&format!("{fmt}_font_rt"), input, &format!("no font {slot} after loading")),
+            None => run.oracle_fail(&key_rt, input, &format!("no font {slot} after loading")),
         }
     }
 }
@@ -430,6 +476,18 @@ pub fn icy_case(run: &mut Run, input: &str, f: &[&str]) {
         buf.set_sauce(Some(sd), false);
     }
     run.count(&format!("box .icy pal={} fonts={} sauce={} layers={}", &pal[..1], specs.len().min(4), sauce as u8, nl.min(3)));
+    // "which font goes where": the built-in default font in a slot other than 0 (the loader pre-fills slot 0 only), slot 0 holding
+    // another font
+    for (slot, font) in &fonts {
+        if *slot != 0 && font.is_default() {
+            run.count(&format!("box .icy built-in default font in a slot != 0, slot 0 = {}", match fonts.iter().find(|(s, _)| *s == 0) {
+                None => "empty",
+                Some((_, b)) if b.is_default() => "built-in default",
+                Some((_, b)) if b.name == DEFAULT_FONT_NAME => "other font named like the default",
+                Some(_) => "other font",
+            }));
+        }
+    }
     run.nontrivial(fnv(input.bytes().map(|b| b as u64)));
     let font_field = fonts.iter().map(|(s, b)| format!("{}.{}.{}.{}.{}", s, hex(b.name.as_bytes()), b.length, b.size.height, hex(&b.convert_to_u8_data()))).collect::<Vec<_>>().join(",");
     let op = format!("fontbox icy {} {} {nl} {font_field}", sauce as u8, if pal == "d" { "d" } else { "c" });
